@@ -13,18 +13,51 @@ MS = 1000
 
 # ---------------------------------------------------------------------------
 # helpers
-def after_delay_us(sc, key):
-    """Resolve an `after` key of the scenario to microseconds (as resolved at entry)."""
+def after_delay_us(sc, key, ctx=None):
+    """Resolve an `after` key of the scenario to microseconds (as resolved at entry; `ctx` = context at that entry)."""
     try:
         return int(key) * MS
     except (TypeError, ValueError):
         pass
     d = (sc.get("logic") or {}).get("delays", {}).get(key)
     if isinstance(d, dict) and "$fn" in d:
-        d = d["$fn"].get("v")
+        f = d["$fn"]
+        if f.get("k") == "ctx":
+            if ctx is None:
+                return None   # a computed delay cannot be judged without the context at entry
+            d = ctx.get(f["key"], 0) * f.get("mul", 1) + f.get("add", 0)
+        else:
+            d = f.get("v")
     if isinstance(d, (int, float)):
         return int(d * MS)
     return None
+
+
+def ctx_at_entries(sc, res, root):
+    """(state id, seq of its entry marker) -> context just before that entry (for delays computed from the context)."""
+    out = {}
+    ctx = dict(sc["machine"].get("context") or {})
+    for r in res.trace:
+        k = r[K]
+        if k == "act" and r[4] == root and str(r[5]).startswith("en."):
+            out[(r[5][3:], r[SEQ])] = dict(ctx)
+        if k in ("act", "ucall") and (k == "ucall" or r[4] == root):
+            try:
+                apply_effects(ctx, sc, r)
+            except Exception:
+                pass
+    return out
+
+
+def _entry_ctx(entry_ctx, sid, a):
+    if a is None:
+        return None
+    # the entry marker closest to (at or just after) the activation's recorded start
+    best = None
+    for (s_, q), c in entry_ctx.items():
+        if s_ == sid and q >= (a.seq_in or 0) - 2 and (best is None or q < best[0]):
+            best = (q, c)
+    return best[1] if best else None
 
 
 def const_true_guard(sc, g):
@@ -75,16 +108,17 @@ def oracle_c08(sc, res):
             stop_ret = r
             break
     late_max = ((sc.get("sched") or {}).get("late") or {}).get("max", 0)
+    entry_ctx = ctx_at_entries(sc, res, m.root.id)
     for r in w.trans:
         t = m.trans.get(r[5])
         if t is None or t.kind != "after":
             continue
         S = t.source.id
-        d_us = after_delay_us(sc, t.delay)
         rv = _recv_before(w, r[SEQ], t.event)
         fire_seq = rv[SEQ] if rv is not None else r[SEQ]
         fire_t = rv[T] if rv is not None else r[T]
         a = w.activation_at(S, fire_seq)
+        d_us = after_delay_us(sc, t.delay, _entry_ctx(entry_ctx, S, a))
         if a is None:
             vios.append(Violation("C08", "after-fired-inactive", {"engine": sc["engine"]},
                                   f"after transition {t.tid} fired while {S} has no current activation at seq {fire_seq}"))
@@ -136,7 +170,7 @@ def oracle_c08(sc, res):
                 continue
             a = acts[-1]
             for dkey, cands in n.after.items():
-                d_us = after_delay_us(sc, dkey)
+                d_us = after_delay_us(sc, dkey, _entry_ctx(entry_ctx, sid, a))
                 if d_us is None:
                     continue
                 if not any(const_true_guard(sc, c.guard) for c in cands):
@@ -688,6 +722,39 @@ def oracle_c04(sc, res):
     fin = w.final_obs("final")
     status_ok = fin is not None and fin["status"] == "running"
     during_start_tags = set()
+    # ---- "each event is processed to a stable configuration - including all eventless (always) follow-ups - before the
+    # next one starts": when a named event is taken from the queue no always-transition is enabled any more (unless a
+    # maxIterations bound cut an always-loop, which leaves one enabled by design)
+    if not has_log(w, "xceeded") and not has_log(w, "rolling back"):
+        try:
+            m_ = w.model if getattr(w, "model", None) is not None else Model(sc["machine"])
+            cfg_, ctx_ = set(), dict(sc["machine"].get("context") or {})
+            seen_start_ret = False
+            for r in res.trace:
+                k = r[K]
+                if k == "act" and r[4] == root:
+                    nm = r[5]
+                    if nm.startswith("en."):
+                        cfg_.add(nm[3:])
+                    elif nm.startswith("ex."):
+                        cfg_.discard(nm[3:])
+                if k in ("act", "ucall") and (k == "ucall" or r[4] == root):
+                    apply_effects(ctx_, sc, r)
+                if k == "op-ret" and r[5] == "start":
+                    seen_start_ret = True
+                if k == "recv" and r[4] == root and r[5] != "" and seen_start_ret:
+                    cfg_at, ctx_at = set(cfg_), dict(ctx_)
+                    try:
+                        en = m_.nominate(cfg_at, "", lambda t: ref_guard(sc, t.guard, ctx_at, cfg_at))
+                    except Exception:
+                        en = []
+                    if en:
+                        vios.append(Violation("C04", "event-processed-in-unsettled-configuration", {"engine": sc["engine"], "preempted": preempted},
+                                              f"event {r[5]} (tag {r[6]}) was taken from the queue in {sorted(cfg_at)} ctx={ctx_at} while the "
+                                              f"always-transition {en[0].tid} was still enabled"))
+                        break
+        except Exception:
+            pass
     # ---- nothing accepted is still waiting when the whole system is idle (no thread / task runnable at that instant):
     # an event left in the queue until somebody else happens to send is lost for all practical purposes
     qs = [r for r in res.trace if r[K] == "quiescent"]
@@ -1092,6 +1159,13 @@ def stats_c09(sc, res):
 # C10 - completion
 # ===========================================================================
 
+def _static_output(o):
+    """A generated dynamic output ({"$fn": const}) evaluates to its constant."""
+    if isinstance(o, dict) and isinstance(o.get("$fn"), dict) and o["$fn"].get("k") == "const":
+        return o["$fn"].get("v")
+    return o
+
+
 def oracle_c10(sc, res):
     w = Walk(sc, res)
     m = w.model
@@ -1140,7 +1214,7 @@ def oracle_c10(sc, res):
                 if strict:
                     instants[n.id] += 1
                     last_instant_seq[n.id] = r[SEQ]
-                    outs_seen.setdefault(n.id, []).append(F.output)
+                    outs_seen.setdefault(n.id, []).append(_static_output(F.output))
         elif k == "recv" and r[4] == root:
             et = r[5]
             if et.startswith("done.state."):
@@ -1211,7 +1285,7 @@ def oracle_c10(sc, res):
             vios.append(Violation("C10", "top-final-not-done", {"engine": sc["engine"], "status": fin["status"]},
                                   f"top-level final state {F.id} was entered but status is {fin['status']}"))
         elif fin["status"] == "done":
-            want = sc["machine"].get("output") if sc["machine"].get("output") is not None else F.output
+            want = _static_output(sc["machine"].get("output") if sc["machine"].get("output") is not None else F.output)
             if fin["output"] != want:
                 vios.append(Violation("C10", "machine-output", {"engine": sc["engine"], "machine_level": sc["machine"].get("output") is not None},
                                       f"status done, output {fin['output']!r}, expected {want!r}"))
@@ -1237,6 +1311,15 @@ def oracle_c10(sc, res):
                         vios.append(Violation("C10", "activity-after-done", {"engine": sc["engine"], "kind": r[K]},
                                               f"after completion an event was sent (seq {quiet_from}) and {r[K]} {r[4:7]} followed at seq {r[SEQ]}"))
                         break
+    # once the machine has completed nothing is taken from the queue any more - also not events that were accepted while it
+    # was still running and are queued behind the one that completed it (the tail of a send_events batch, a raised event)
+    done_seq = next((r[SEQ] for r in res.trace if r[K] == "done-hook" and r[4] == root), None)
+    if done_seq is not None:
+        late_recv = [r for r in res.trace if r[K] == "recv" and r[4] == root and r[SEQ] > done_seq]
+        if late_recv:
+            vios.append(Violation("C10", "event-processed-after-done", {"engine": sc["engine"]},
+                                  f"after the machine completed (seq {done_seq}) event {late_recv[0][5]} was still taken from the queue and "
+                                  f"processed (seq {late_recv[0][SEQ]})"))
     after_stop = w.final_obs("after-stop")
     if after_stop is not None:
         # a sync actor's polling thread notices the stop at its next poll (<= 10 ms): judged once the clock has moved
